@@ -137,6 +137,10 @@ SPECS["C19"] = dict(
         H("aggregator_h", "c19_cleanup_drop", symbolic="none", asserts="cleanup(c>r) drops it"),
         H("core2_h", "hv_quorum", stubbing=True, timeout=1200, mem_gb=20, symbolic="vote round, node state", asserts="Core level: the third distinct valid vote assembles the QC exactly once; acted upon only then"),
         H("core2_h", "hv_replayed_quorum", stubbing=True, timeout=1200, mem_gb=20, symbolic="node last_voted; state right after assembling the QC for (h,7) at the leader of round 8; a full quorum of valid votes for (h,7) is replayed", asserts="no second certificate for the same block and round (no second proposal request), round/high_qc unchanged"),
+        H("core2_h", "hv_single_self", stubbing=True, timeout=900, mem_gb=16, symbolic="vote naming the collecting node itself as author, validity, round", asserts="only VERIFIED votes are aggregated: an invalid self-authored vote never enters the aggregator"),
+        H("core2_h", "hv_single", stubbing=True, timeout=900, mem_gb=16, symbolic="vote of member 1, validity, round", asserts="only verified votes are aggregated"),
+        H("core2_h", "hto_single_self", stubbing=True, timeout=900, mem_gb=16, symbolic="timeout naming the collecting node itself as author", asserts="only verified timeouts are aggregated"),
+        H("core2_h", "hto_single", stubbing=True, timeout=900, mem_gb=16, symbolic="timeout of member 1, validity, round", asserts="only verified timeouts are aggregated"),
     ],
 )
 
@@ -170,6 +174,14 @@ SPECS["C04"] = dict(
         H("core2_h", "hv_single_nonmember", stubbing=True, timeout=900, mem_gb=16, symbolic="vote of a non-member, validity, round", asserts="rejected, nothing changes"),
         H("core2_h", "htc_bad_sig", stubbing=True, timeout=900, mem_gb=16, symbolic="TC with a signature made for another round", asserts="rejected, nothing changes"),
         H("core2_h", "htc_below_quorum", stubbing=True, timeout=900, mem_gb=16, symbolic="TC with 2 entries", asserts="rejected, nothing changes"),
+        H("core2_h", "hv_single_self", stubbing=True, timeout=900, mem_gb=16, symbolic="vote naming the node itself as author, validity, round", asserts="verified like any other: an invalid one is rejected, nothing changes"),
+        H("core2_h", "hto_single", stubbing=True, timeout=900, mem_gb=16, symbolic="timeout of member 1: validity, round; node state", asserts="real handle_timeout: invalid => rejected, nothing changes; valid single timeout => no round change, nothing sent"),
+        H("core2_h", "hto_single_self", stubbing=True, timeout=900, mem_gb=16, symbolic="timeout naming the node itself as author", asserts="as hto_single"),
+        H("core2_h", "hto_single_nonmember", stubbing=True, timeout=900, mem_gb=16, symbolic="timeout of a non-member", asserts="rejected, nothing changes"),
+        H("core2_h", "hto_bad_qc", stubbing=True, timeout=900, mem_gb=16, symbolic="correctly signed timeout embedding a vote-less non-genesis QC (round symbolic)", asserts="rejected: the embedded QC never reaches process_qc; nothing changes"),
+        H("core2_h", "hto_bad_qc_self", stubbing=True, timeout=900, mem_gb=16, symbolic="as hto_bad_qc, naming the node itself as author", asserts="as hto_bad_qc"),
+        H("core2_h", "hp_bad_sig_payload_missing", stubbing=True, timeout=1200, mem_gb=20, symbolic="leader proposal with an invalid signature whose batch is not stored; node state", asserts="rejected before the payload is looked at: not parked, mempool not asked, nothing changes"),
+        H("core2_h", "hp_bad_qc_payload_missing", stubbing=True, timeout=1200, mem_gb=20, symbolic="as above with one invalid QC vote", asserts="as above"),
     ],
 )
 
@@ -194,6 +206,7 @@ SPECS["C05"] = dict(
         H("core2_h", "htc_valid", stubbing=True, timeout=900, mem_gb=16, symbolic="TC round, node state", asserts="a TC never causes a commit"),
         H("core2_h", "hp_valid", stubbing=True, timeout=1200, mem_gb=20, symbolic="proposal round/author, node last_voted/high_qc (current round 7)", asserts="a valid proposal over a consecutive certified 2-chain commits its head exactly once"),
         H("core2_h", "hp_bad_qc_vote", stubbing=True, timeout=1200, mem_gb=20, symbolic="as hp_valid with one invalid QC signature", asserts="an uncertified proposal commits nothing"),
+        H("core2_h", "hp_bad_qc_payload_missing", stubbing=True, timeout=1200, mem_gb=20, symbolic="uncertified proposal (one invalid QC vote) whose batch is not stored", asserts="never parked at the payload waiter (a parked block re-enters through the loop-back path, which trusts it and would commit on the forged QC)"),
     ],
 )
 # --------------------------------------------------------------------------------------------- C09
@@ -305,6 +318,8 @@ SPECS["C11"] = dict(
         H("batch_maker_h", "c11_run_oversize_timer_s0", stubbing=True, timeout=900, mem_gb=16, symbolic="bytes of 3 transactions (12, 3, 2); schedule tx,timer,tx,tx,timer", asserts="as above; a timer on an empty batch seals nothing"),
         H("batch_maker_h", "c11_run_boundary_s1", stubbing=True, timeout=900, mem_gb=16, symbolic="bytes of 4 transactions (7, 1, 8, 9); batch_size 8", asserts="exact-threshold and consecutive size-triggered batches"),
         H("processor_h", "c11_processor_two_batches", stubbing=True, timeout=900, mem_gb=16, symbolic="two batches of 5 and 3 bytes", asserts="real Processor loop: each batch is hashed over its exact bytes, stored byte-for-byte under that digest, announced once with that digest, in arrival order"),
+        H("mmempool_h", "c11_dispatch_batch_exact", stubbing=True, timeout=900, mem_gb=16, symbolic="batch message of one 2-byte transaction (contents symbolic)", asserts="real MempoolReceiverHandler::dispatch: the received frame reaches the processor exactly once, byte-for-byte; nothing goes to the helper"),
+        H("mmempool_h", "c11_dispatch_batch_trailing", stubbing=True, timeout=900, mem_gb=16, symbolic="as above plus 2 arbitrary trailing bytes (tolerated by the decoder)", asserts="the processor gets the ORIGINAL bytes (they are what is hashed, stored and announced), not a re-encoding"),
         H("batch_maker_h", "c11_run_only_empty_s0", stubbing=True, timeout=900, mem_gb=16, symbolic="two empty transactions then the timer", asserts="a batch of only empty transactions is sealed when the timer fires"),
         H("batch_maker_h", "c11_run_oversize_timer_s1", tier="thorough", stubbing=True, timeout=900, mem_gb=16, symbolic="transaction contents; as oversize_timer, other select start", asserts="as the quick-tier run harnesses"),
         H("batch_maker_h", "c11_run_boundary_s0", tier="thorough", stubbing=True, timeout=900, mem_gb=16, symbolic="transaction contents; as boundary, other select start", asserts="as the quick-tier run harnesses"),
@@ -401,20 +416,28 @@ _C16 = [("c16_read_unknown", "none", "a key never written reads as nothing", Tru
         ("c16_keys_independent", "2 values", "keys do not interfere", False),
         ("c16_queued_in_issue_order", "2 values", "two writes and a read queued from three handles before the store task runs are applied in issue order", False),
         ("c16_notify_existing", "value", "notify_read on an existing key completes with its value", False),
-        ("c16_notify_pending", "none", "notify_read on a missing key stays pending while nothing is written", True)]
+        ("c16_notify_pending", "none", "notify_read on a missing key stays pending while nothing is written", True),
+        ("c16_st_park_one", "none", "parking step: after a notify_read of a missing key the waiter table holds exactly one waiter under exactly that key", True),
+        ("c16_st_existing_not_parked", "value", "notify_read of a key that has a value is answered and leaves no waiter behind (invariant: valued key has no waiters)", False),
+        ("c16_st_wake_two", "value", "wake-up step from a table with two waiters under key 1 and one under key 2: Write(1,v) completes both with v, clears the entry, leaves the other waiter parked", False),
+        ("c16_st_wake_first_write", "2 values", "wake-up step: a parked waiter gets the FIRST of two queued writes; table cleared", False),
+        ]
+_C16_THOROUGH = [("c16_st_notify_then_write", "value", "full schedule: notify_read parked by the store task, later write completes it with the written value"),
+                 ("c16_st_notify_write_queued", "value", "full schedule: notify_read and a write to its key queued before the store task runs: no lost wake-up")]
 SPECS["C16"] = dict(
     level="model_checking",
     technique="bounded symbolic execution of the real store command loop and handle functions (Kani/CBMC, SAT); the spawned loop is made callable by a per-run source lowering",
-    bounds="8 concrete command schedules of 1..3 commands over 1..3 cloned handles, keys concrete (1 byte), values symbolic (1 byte); the store task runs at the points the harness chooses (after each command, or after several queued ones)",
-    outside="PARTIAL CLAIM: the completion of a parked notify_read by a later write (no lost wake-up, several waiters, first write wins) - every schedule that processes a command after one answered with \"no value\" did not finish symbolic execution in 900 s (harnesses kept in store_h.rs); RocksDB itself (replaced by a 4-slot last-write-wins table: durability across restart, compaction, I/O errors); longer schedules; keys/values longer than 1 byte; the real tokio scheduler and channel (capacity 100; shim: FIFO of 4)",
+    bounds="concrete command schedules of 1..3 commands over 1..3 cloned handles, keys concrete (1 byte), values symbolic (1 byte); the store task runs at the points the harness chooses. Wake-up clauses as ONE-STEP obligations over the state-passing form of the loop (the waiter table `obligations` is owned by the harness between runs of the real loop body): parking step from the empty table (table afterwards = exactly one waiter under exactly that key), wake-up step from tables built directly with real oneshot channels (two waiters under key 1 + one under key 2: Write(1,v) completes both with v, clears the entry, leaves the other parked; one waiter + two queued writes: first value wins), and the invariant step (a key with a value gets no waiter). thorough: the full histories notify_read -> park -> write -> completion, and notify_read + write queued before the task runs (each ~900 s)",
+    outside="PARTIAL CLAIM: parking when the table already holds waiters (c16_st_park_behind / c16_st_park_other_key: no result in 900 s) - so 'any number of concurrent waiters' rests on the wake-up step from a 2+1-waiter table plus the single parking step, not on a parking step from every table; two waiters parked by the loop itself and then woken in one history (timeout); RocksDB itself (replaced by a 4-slot last-write-wins table: durability across restart, compaction, I/O errors); longer schedules; keys/values longer than 1 byte; the real tokio scheduler and channel (capacity 100; shim: FIFO of 4)",
     trusted_base=COMMON_TB + [
         "kani/shims/tokio: sequential FIFO mpsc, oneshot, TailFut",
         "kani/shims/rocksdb: DB::open_default/put/get over one in-memory table",
-        "kani/overlay.py lower_spawned_loop: Store::verif_new generated from the text of Store::new (spawned block -> closure, `rx.recv().await` -> take a queued command or return)",
+        "kani/overlay.py lower_spawned_loop: Store::verif_new generated from the text of Store::new (spawned block -> closure, `rx.recv().await` -> take a queued command or return); Store::verif_new_st: the same text with the `let mut obligations = ..;` statement lifted out (the closure takes the table as `&mut` argument, the harness owns it between runs)",
         "kani/overlay.py deasync: write lowered; read/notify_read lowered to `prefix; TailFut(receiver, postfix)` (prefix runs at call time instead of first poll)",
         "kani/shims/vwit: witness channel"],
     assumptions=["the store task is scheduled only between handle calls (sequential model)"],
-    harnesses=[H("store_h", n, profile="S", timeout=900, mem_gb=16, symbolic=sym, asserts=a, need_cover=not nc) for n, sym, a, nc in _C16],
+    harnesses=[H("store_h", n, profile="S", timeout=900, mem_gb=16, symbolic=sym, asserts=a, need_cover=not nc) for n, sym, a, nc in _C16]
+    + [H("store_h", n, profile="S", tier="thorough", timeout=2700, mem_gb=24, symbolic=sym, asserts=a) for n, sym, a in _C16_THOROUGH],
 )
 
 SPECS["DBG"] = dict(harnesses=[H("store_h", "dbg_store_min", profile="S", timeout=400, need_cover=False), H("config_h", "dbg_const_threshold", timeout=300, need_cover=False), H("core_h", "dbg_commit_one", timeout=200, need_cover=False, stubbing=True), H("core_h", "dbg_parent_one", timeout=200, need_cover=False, stubbing=True), H("core_h", "dbg_ser_de", timeout=120, need_cover=False, stubbing=True), H("core_h", "dbg_store_de", timeout=120, need_cover=False, stubbing=True)])
